@@ -12,8 +12,7 @@ repo = Repo(sys.argv[1] if len(sys.argv) > 1 else "/repo")
 out = {"__functions__": {}}
 for mn, m in repo.modules.items():
     # every function / method of the module, nested ones excluded ("f", "Cls.m")
-    out["__functions__"][mn] = sorted({q for q, fis in m.funcs.items()
-                                       if any(fi.parent is None for fi in fis)})
+    out["__functions__"][mn] = sorted(m.funcs)
 for mn, m in repo.modules.items():
     for qual, fis in m.funcs.items():
         for k, fi in enumerate(fis):
